@@ -40,14 +40,16 @@ m = {
     "setup_cmd": "./setup.sh",
     "hooks": {
         "guard": "HWLOC_VERIF",
-        "enable": "engine/build.py compiles /repo/hwloc/*.c of the working tree with -DHWLOC_VERIF into /verif/build/<variant>/libhwloc.a (clang, ASan+UBSan / plain / TSan variants)",
+        "enable": "engine/build.py compiles /repo/hwloc/*.c of the working tree with -DHWLOC_VERIF into /verif/build/<variant>/libhwloc.a (clang; asan, fast and mon variants)",
         "baseline_off_cmd": "make -C /repo -j16 >/dev/null && make -C /repo check",
         "source_commits": hook_commits,
         "add_only": True,
     },
     "engines": [
         {"name": "hwmc", "path": "engine/", "serves_properties": [c["property_id"] for c in checks],
-         "kind_free_text": "explicit-state / bounded-exhaustive exploration of the real library (history replay, canonical dump, reference models, in-process fault capture), libc seams for environment faults, cooperative scheduler for schedules"},
+         "kind_free_text": "explicit-state / bounded-exhaustive exploration of the real library (history replay, canonical dump, reference models, in-process fault capture), libc seams for environment faults (file system, binding system calls), child-process driver for the tools"},
+        {"name": "mcsched", "path": "engine/mcsched.c", "serves_properties": ["C17"],
+         "kind_free_text": "stateless model checker for real threads: controlled scheduler, preemption-bounded depth-first exploration, scheduling points from interposed mutex operations and MMU-trapped accesses to the library's global variables, vector-clock race detector, read-only arena for the shared topology"},
     ],
     "checks": checks,
     "not_applicable": na,
